@@ -294,7 +294,7 @@ fn payload_bytes(r: &mut Rng, sw: &Swarm, n: usize) -> Vec<u8> {
     if n >= 1 && r.chance(sw.dict_pct, 100) {
         // a literal of the source somewhere in the payload: a number in either byte order, or a string
         let lit: Vec<u8> = match r.below(4) {
-            0 => crate::dict::string(r).as_bytes().to_vec(),
+            0 => crate::dict::blob(r).to_vec(),
             1 => (crate::dict::num(r) as u32).to_le_bytes().to_vec(),
             2 => (crate::dict::num(r) as u32).to_be_bytes().to_vec(),
             _ => vec![crate::dict::num(r) as u8],
